@@ -28,6 +28,7 @@ FLOORS = ["class-compared", "T-scheme", "T-userinfo", "T-subdomain", "T-default-
           "T-amp-entity", "T-escape", "T-wrap", "T-controls", "stacked-markers", "redirect-law-checked", "opt-quoted", "opt-platform_aware", "tracking-every-position", "permutations-all"]
 PROBE_FLOORS = ["should_strip_query_item", "should_strip_fragment", "normalize_url"]
 
+CTX = [None]
 OPTSETS = [("default", {}), ("quoted", {"quoted": True}), ("platform_aware", {"platform_aware": True})]
 
 HOSTS = ["example.com", "lemonde.fr", "sub.example.co.uk", "télérama.fr", "news.example.org", "192.168.0.1", "localhost", "forum-m.example.com", "mwww.example.net"]
@@ -206,7 +207,10 @@ def s_amp_entity(u, rng):
 
 def norm(fn, u, opts):
     try:
-        return fn(u, **opts)
+        r = fn(u, **opts)
+        if CTX[0] is not None:
+            CTX[0].out((u, sorted(opts.items()), r))
+        return r
     except Exception as e:
         return ("EXC", type(e).__name__, str(e)[:80])
 
@@ -298,6 +302,7 @@ def run(ctx):
     pr.watch("ural.normalize_url:qsl_sort_key", want_args=False, lines=False)
     pr.start()
     rng = ctx.rng
+    CTX[0] = ctx
     try:
         def redirect_law(u):
             for oname, opts in OPTSETS:
@@ -348,6 +353,7 @@ def run(ctx):
                 ctx.sample("grid-%d" % (n_here // 40 % 4), {"base": ub, "variants": [u for _, u in sv[:5]]})
         ctx.exhaustive_space("grid bases (every %d-th of %d) x every single transformation, tracking at every position, all permutations" % (step, len(grid)), n_here)
         # random compositions
+        ctx.freeze_outputs()
         names = list(CASE_T)
         n = 0
         lim = 5000 if ctx.tier == "quick" else 10 ** 7
